@@ -1,13 +1,15 @@
-"""Whole-program symbolic execution of the printed x86-64 routine (concrete-layout mode of the SME): heap, stack
-and code at fixed addresses, only integer data symbolic, branches fork through the decision context.
+"""Whole-program symbolic execution of the printed routine of any of the three back ends (concrete-layout mode of
+the SME): heap, stack and code at fixed addresses, only integer data symbolic, branches fork through the decision context.
 Contracts taken from C20: argv[i] -> parameter i (C driver + prologue), print_i64(v) writes the decimal text of v,
 the exit status is the low 8 bits of the result."""
 import sys, os
 sys.path.insert(0, os.path.dirname(__file__))
 sys.path.insert(0, os.path.join(os.path.dirname(__file__), '..', 'sme'))
 from symrun import *  # noqa
-import core, x86
+import core, x86, a64, rv64
 import z3
+
+ISAS = {'x86_64': x86, 'aarch64': a64, 'rv64': rv64}
 
 HEAP = 0x10000000
 HEAP_SIZE = 32 * 1024 * 1024
@@ -16,10 +18,11 @@ SPACING = 256
 
 
 class PEnv:
-    def __init__(self, ctx, prog):
+    def __init__(self, ctx, prog, isa=x86):
         self.ctx = ctx
         self.prog = prog
-        self.sp_class = 8
+        self.isa = isa
+        self.sp_class = 8 if isa is x86 else 0
         self.stack_hi = 0
         self.ncalls = 0
         self.notes = []
@@ -31,10 +34,10 @@ class PEnv:
             self.addr[name] = a
             self.idx_of[a] = prog.labels[prog.canon[name]]
         for name, ents in prog.tables.items():
-            if len(ents) * x86.FIXED_JUMP_SIZE >= SPACING:
+            if len(ents) * isa.FIXED_JUMP_SIZE >= SPACING:
                 raise Stuck("jump table too large for the layout model")
             for j, idx in enumerate(ents):
-                self.idx_of[self.addr[name] + x86.FIXED_JUMP_SIZE * j] = idx
+                self.idx_of[self.addr[name] + isa.FIXED_JUMP_SIZE * j] = idx
 
     def fault(self, reason, cond):
         if cond is False:
@@ -78,33 +81,50 @@ class PState(core.State):
             self.top = a
 
 
-def run(text, args, ctx, stats=None):
-    prog = core.Program(x86, text.split('\n'))
+def run(text, args, ctx, stats=None, isa_name='x86_64', param_regs=None):
+    isa = ISAS[isa_name]
+    prog = core.Program(isa, text.split('\n'))
     if prog.dups:
         raise Stuck(f"label defined twice: {prog.dups}")
     if prog.enc_errors:
         raise Stuck(f"unencodable instruction: {prog.enc_errors[0]}")
-    env = PEnv(ctx, prog)
+    env = PEnv(ctx, prog, isa)
     st = PState(env)
-    for r in x86.REGS:
+    for r in isa.REGS:
         st.regs[r] = fresh('entry_' + r)
-    st.regs['rdi'] = HEAP
-    if len(args) > 5:
-        raise Stuck("more than five parameters")
-    for r, a in zip(x86.ARG_REGS[1:], args):
-        st.regs[r] = a
-    entry_callee = {r: st.regs[r] for r in x86.CALLEE_SAVED}
-    if 'asm_main' not in prog.labels:
-        raise Stuck("no asm_main")
-    i = prog.labels['asm_main']
+    if isa_name == 'rv64':
+        # no prologue: started at the first label with heap and free pointers initialised as on the other back ends,
+        # main's parameters in the second temporaries of the first positions (param_regs, from the real tempmap)
+        st.regs[isa.HEAP_REG] = HEAP
+        st.regs[isa.FREE_REG] = HEAP + 64
+        for r, a in zip(param_regs or [], args):
+            st.regs[r] = a
+        i = min(prog.labels.values()) if prog.labels else 0
+        entry_callee = {}
+    else:
+        st.regs[isa.ARG_REGS[0]] = HEAP
+        if len(args) > len(isa.ARG_REGS) - 1:
+            raise Stuck("too many parameters")
+        for r, a in zip(isa.ARG_REGS[1:], args):
+            st.regs[r] = a
+        entry_callee = {r: st.regs[r] for r in isa.CALLEE_SAVED}
+        if isa_name == 'aarch64':
+            entry_callee['X30'] = st.regs['X30']
+        if 'asm_main' not in prog.labels:
+            raise Stuck("no asm_main")
+        i = prog.labels['asm_main']
     n = len(prog.ins)
     seen_events = 0
     while True:
         ctx.tick()
         if i >= n:
+            if isa_name == 'rv64' and prog.labels.get('cleanup') is not None:
+                if stats is not None:
+                    stats['heap_top_blocks'] = (st.top - HEAP) // 64 + 1
+                return st.regs[isa.RET_REG]
             raise Stuck("execution ran past the end of the text")
         ins = prog.ins[i]
-        eff = x86.step(st, ins)
+        eff = isa.step(st, ins)
         while seen_events < len(st.events):
             fn, v = st.events[seen_events]
             seen_events += 1
@@ -135,11 +155,11 @@ def run(text, args, ctx, stats=None):
         elif k == 'ret':
             if st.spd != 0:
                 raise Stuck(f"ret with sp = entry sp {st.spd:+d}")
-            for r in x86.CALLEE_SAVED:
-                if not same(st.regs[r], entry_callee[r]):
+            for r, v in entry_callee.items():
+                if not same(st.regs[r], v):
                     raise Stuck(f"callee-saved register {r} not restored")
             if stats is not None:
                 stats['heap_top_blocks'] = (st.top - HEAP) // 64 + 1
-            return st.regs['rax']
+            return st.regs[isa.RET_REG]
         else:
             raise Stuck(f"unknown effect {k}")
